@@ -284,43 +284,58 @@ func (i *interpreter) findSubmatchSym(fr *frame, pattern string, s symstr) value
 	cs = append(cs, "(= "+s.t+" "+cat+")")
 	match := "(and " + strings.Join(cs, " ") + ")"
 	whole := regexMatchTerm(pattern, s.t)
+	// leftmost-first: a greedy optional piece X? is taken whenever taking it
+	// still allows a match: (p_k = "") => rest_k not in (X minus "") . tail_k
+	prefs := func(ps []string) []string {
+		var out []string
+		for k, p := range pieces {
+			if p.Op == syntax.OpQuest && p.Flags&syntax.NonGreedy == 0 {
+				rest := ps[k]
+				if k+1 < len(ps) {
+					rest = "(str.++ " + strings.Join(ps[k:], " ") + ")"
+				}
+				var tail []string
+				tail = append(tail, "(re.diff "+reToSMT(p.Sub[0])+" (str.to_re \"\"))")
+				for _, q := range pieces[k+1:] {
+					tail = append(tail, reToSMT(q))
+				}
+				lang := tail[0]
+				if len(tail) > 1 {
+					lang = "(re.++ " + strings.Join(tail, " ") + ")"
+				}
+				out = append(out, "(=> (= "+ps[k]+" \"\") (not (str.in_re "+rest+" "+lang+")))")
+			}
+		}
+		return out
+	}
+	cs = append(cs, prefs(parts)...)
+	match = "(and " + strings.Join(cs, " ") + ")"
 	c := pm.branch([]string{match, "(not " + whole + ")"}, false)
 	if c == 1 {
 		return []value(nil)
 	}
-	// leftmost-first disambiguation: for each greedy optional piece that was
-	// taken as empty, there is no match in which it is non-empty; for each
-	// piece, no match exists in which an earlier greedy piece is longer.
+	// the decomposition must now be unique (greedy stars are not ordered by
+	// this encoding): is there a second one?
+	var q []string
+	var qcs []string
 	for k, p := range pieces {
-		if p.Op == syntax.OpQuest && p.Flags&syntax.NonGreedy == 0 {
-			// prefer taking the optional: if v == "" then taking it must be impossible
-			var alt []string
-			var acs []string
-			for j, q := range pieces {
-				w := fresh(fmt.Sprintf("a%d_", k), j)
-				alt = append(alt, w)
-				if j == k {
-					acs = append(acs, "(str.in_re "+w+" "+reToSMT(q.Sub[0])+")")
-				} else {
-					acs = append(acs, "(str.in_re "+w+" "+reToSMT(q)+")")
-				}
-				if j < k {
-					acs = append(acs, "(= "+w+" "+parts[j]+")")
-				}
-			}
-			acat := alt[0]
-			if len(alt) > 1 {
-				acat = "(str.++ " + strings.Join(alt, " ") + ")"
-			}
-			acs = append(acs, "(= "+s.t+" "+acat+")")
-			takeable := "(and " + strings.Join(acs, " ") + ")"
-			// Is "piece k empty while it could have been taken" possible on this path?
-			if pm.checkSat("(and (= "+parts[k]+" \"\") (not (str.in_re \"\" "+reToSMT(p.Sub[0])+")) "+takeable+")") != "unsat" {
-				// ambiguity exists: exclude the non-preferred decomposition by
-				// asserting that the piece is non-empty whenever it can be
-				pm.ambiguous = append(pm.ambiguous, fmt.Sprintf("%s piece %d", pattern, k))
-			}
-		}
+		v := fresh("q", k)
+		q = append(q, v)
+		qcs = append(qcs, "(str.in_re "+v+" "+reToSMT(p)+")")
+	}
+	qcat := q[0]
+	if len(q) > 1 {
+		qcat = "(str.++ " + strings.Join(q, " ") + ")"
+	}
+	qcs = append(qcs, "(= "+s.t+" "+qcat+")")
+	qcs = append(qcs, prefs(q)...)
+	var diff []string
+	for k := range q {
+		diff = append(diff, "(not (= "+q[k]+" "+parts[k]+"))")
+	}
+	qcs = append(qcs, "(or "+strings.Join(diff, " ")+")")
+	if r := pm.checkSat("(and " + strings.Join(qcs, " ") + ")"); r != "unsat" {
+		panic(engineError{"regexp decomposition is not unique under the leftmost-first encoding (" + r + "): " + pattern})
 	}
 	out := make([]value, ncap+1)
 	copy(out, groups)
